@@ -26,6 +26,7 @@ class InstanceReport:
         self.validations = []      # replay specs for the concolic cross-check
         self.samples = []
         self.reach_ok = 0          # reachability witnesses (path condition sat)
+        self.unconfirmed_paths = 0
         self.notes = []
         self.errors = []
 
@@ -33,8 +34,17 @@ class InstanceReport:
     def explore(self, fn, max_paths=300, timeout_ms=20000):
         st = Exploration()
         for ctx, res in explore(fn, max_paths=max_paths, timeout_ms=timeout_ms, stats=st):
+            # vacuity guard: a path reached through 'unknown' feasibility answers may be infeasible
+            r = ctx.check()
+            if r == z3.unsat:
+                self.aborted["Infeasible(after-unknown)"] = self.aborted.get("Infeasible(after-unknown)", 0) + 1
+                st.completed -= 1
+                continue
+            if r == z3.sat:
+                self.reach_ok += 1
+            else:
+                self.unconfirmed_paths += 1
             yield ctx, res
-            self.solver_ms += 0
         self.paths += st.paths
         self.completed += st.completed
         for k, v in st.aborted.items():
@@ -45,6 +55,9 @@ class InstanceReport:
         self.solver_ms += st.solver_ms
         if st.unknown_branches:
             self.inconclusive.append(f"{st.unknown_branches} branch feasibility checks returned unknown")
+        if self.unconfirmed_paths:
+            self.inconclusive.append(f"{self.unconfirmed_paths} path condition(s) not confirmed satisfiable (solver unknown)")
+            self.unconfirmed_paths = 0
         if not st.exhausted:
             self.inconclusive.append(f"path budget {max_paths} exhausted before all paths were visited")
 
@@ -104,13 +117,8 @@ class InstanceReport:
         return "unknown"
 
     def reachable(self, ctx):
-        """Vacuity guard: the path condition + assumptions must be satisfiable."""
-        r = ctx.check()
-        if r == z3.sat:
-            self.reach_ok += 1
-            return True
-        self.inconclusive.append(f"path condition not confirmed satisfiable ({r})")
-        return False
+        """Vacuity guard (performed by explore(): unsat paths are dropped, sat ones counted)."""
+        return True
 
     def candidate(self, spec, label, key=None):
         """A violation candidate found without a query (e.g. the real code raised on a feasible path)."""
